@@ -393,16 +393,23 @@ def main_std_types(only=None):
         for p, v in typ.items():
             if p in cols and not _same(net[element].at[idx, p], v):
                 fails.append(f"{element}: created from type: {p} = {net[element].at[idx, p]!r}, type defines {v!r}")
-        # the batch create functions apply the type as well (create_transformers: known finding of C24, not repeated here)
+        # the batch create functions apply the type as well 
         bmk = {"line": lambda n_: pp.create_lines(n_, [2, 3], [3, 2], [1.2, 0.7], "T1"),
+               "trafo": lambda n_: pp.create_transformers(n_, [0, 1], [2, 3], "T1"),
                "trafo3w": lambda n_: pp.create_transformers3w(n_, [0, 1], [2, 3], [4, 5], "T1")}.get(element)
+        # create_transformers: shift / tap data of the type are the recorded known finding of C24 and are not repeated here
+        dropped = ("shift_degree", "tap_side", "tap_neutral", "tap_min", "tap_max", "tap_step_percent", "tap_step_degree", "tap_changer_type",
+                   "tap_pos") if element == "trafo" else ()
         if bmk is not None:
             nb = base_net()
             pp.create_std_type(nb, dict(typ), "T1", element=element)
             for bi in bmk(nb):
                 for p, v in typ.items():
-                    if p in set(nb[element].columns) and not _same(nb[element].at[bi, p], v):
-                        fails.append(f"{element}: batch-created from type: {p}[{bi}] = {nb[element].at[bi, p]!r}, type defines {v!r}")
+                    if p in dropped or p not in (cols | set(nb[element].columns)):
+                        continue        # cols: the columns the element table has after the single create call
+                    got = nb[element].at[bi, p] if p in nb[element].columns else np.nan
+                    if not _same(got, v):
+                        fails.append(f"{element}: batch-created from type: {p}[{bi}] = {got!r}, type defines {v!r}")
         # change_std_type to a second type with other values, then back after redefinition under the same name
         t2 = {k: (v * 1.25 if isinstance(v, float) else v) for k, v in typ.items()}
         pp.create_std_type(net, t2, "T2", element=element)
